@@ -308,12 +308,65 @@ def argument_permutations(tier='quick'):
     return out
 
 
+def scrutinee_reuse():
+    """a clause binder is matched on as the first statement of the clause and used again inside its own clause, while the
+    sibling binder is dead or live (the dead one is still in the environment at the inner switch)"""
+    out = []
+    mk = "def mkP(p: i64, q: i64): Pair[List[i64], List[i64]] { Tup(Cons(p, Nil), Cons(q, Cons(p, Nil))) }\n"
+    for scr, other in (("l1", "l2"), ("l2", "l1")):
+        for other_live in (False, True):
+            for again in ("sum({s})", "({s}.case[i64] {{ Nil => 0, Cons(z, zs) => z }})"):
+                extra_use = f" + sum({other})" if other_live else ""
+                body = (f"{scr}.case[i64] {{ Nil => 0, Cons(y, ys) => (y + {again.format(s=scr)}){extra_use} }}")
+                defs = mk + f"def f(p: Pair[List[i64], List[i64]]): i64 {{ p.case[List[i64], List[i64]] {{ Tup(l1, l2) => {body} }} }}\n"
+                out.append({'name': f"scrutinee-reuse/{scr}/{'live' if other_live else 'dead'}/{'call' if 'sum' in again else 'case'}",
+                            'src': prog("f(mkP(a, b))", extra_defs=defs)})
+    return out
+
+
+def nested_labels():
+    """labels nested in tail position of labels / goto arguments, with an inner label that reuses the outer or the middle
+    label's name (or a fresh one) in tail, operand or argument position, and jumps to the middle and to the outer label"""
+    out = []
+    ctxs = {'tail': "{t}", 'operand': "n + {t}", 'argument': "id({t})", 'let': "let w: i64 = {t}; w + n"}
+    for inner in ("k", "a", "j"):
+        for ck, ctpl in ctxs.items():
+            for outer_form in ("label", "goto"):
+                t = f"(label {inner} {{ if m == 0 {{ goto a (100) }} else {{ if m == 1 {{ goto k (7) }} else {{ goto {inner} (m) }} }} }})"
+                mid = f"label a {{ {ctpl.format(t=t)} }}"
+                body = f"label k {{ {mid} }}" if outer_form == "label" else f"label k {{ goto k ({mid}) }}"
+                defs = f"def f(n: i64, m: i64): i64 {{ {body} }}\n"
+                out.append({'name': f"nested-labels/{outer_form}/{inner}/{ck}", 'src': prog("println_i64(f(a, b)); f(b, a)", extra_defs=defs)})
+    return out
+
+
+def covariable_arguments():
+    """destructors and definitions with TWO explicit covariable parameters next to the implicit return continuation, in
+    every position relative to the value parameters; the body leaves through the first, the second and the implicit one"""
+    out = []
+    orders = [("err", "ok", "x", "lim"), ("x", "err", "lim", "ok"), ("x", "lim", "err", "ok"), ("ok", "x", "err", "lim")]
+    ty = {"err": "cns i64", "ok": "cns i64", "x": "i64", "lim": "i64"}
+    body = "if x < lim { goto ok (x) } else { if x == lim { x + 1 } else { goto err (lim) } }"
+    for o in orders:
+        sig = ", ".join(f"{v}: {ty[v]}" for v in o)
+        actual = {"err": "fail", "ok": "done", "x": "x", "lim": "lim"}
+        args = ", ".join(actual[v] for v in o)
+        decl = f"codata Guard {{ check({sig}): i64 }}\n"
+        defs = (f"def below(): Guard {{ new {{ check({', '.join(o)}) => {body} }} }}\n"
+                f"def clamp(g: Guard, x: i64, lim: i64): i64 {{ label fail {{ (label done {{ 0 - (g.check({args})) }}) + 1000 }} }}\n")
+        out.append({'name': f"covar-args/destructor/{'-'.join(o)}", 'src': decl + prog("println_i64(clamp(below(), a, b)); clamp(below(), b, a)", extra_defs=defs)})
+        defs2 = (f"def chk({sig}): i64 {{ {body} }}\n"
+                 f"def clamp(x: i64, lim: i64): i64 {{ label fail {{ (label done {{ 0 - (chk({args})) }}) + 1000 }} }}\n")
+        out.append({'name': f"covar-args/definition/{'-'.join(o)}", 'src': prog("println_i64(clamp(a, b)); clamp(b, a)", extra_defs=defs2)})
+    return out
+
+
 def all_programs(tier='quick'):
     ps = name_reuse(("v", "x0") if tier == 'quick' else ("v", "x0", "a0", "x")) + generated_names() + effects_in_arguments() + cut_shapes() + live_variables()
-    return ps + fresh_clash() + lift_order() + positions_and_codata() + clause_orders_and_nested_types() + argument_permutations(tier)
+    return ps + fresh_clash() + lift_order() + positions_and_codata() + clause_orders_and_nested_types() + argument_permutations(tier) + scrutinee_reuse() + nested_labels() + covariable_arguments()
 
 
 def effect_sequenced(tier='quick'):
     """programs inside the fragment where Fun's evaluation order is unambiguous (C01, C02): no effects in call /
     constructor / destructor / operator arguments and no effects under codata-typed bindings"""
-    return name_reuse(("v", "x0") if tier == 'quick' else ("v", "x0", "a0", "x")) + generated_names() + cut_shapes() + live_variables() + fresh_clash() + lift_order() + [p for p in positions_and_codata() if not p['name'].startswith('codata-eff')] + clause_orders_and_nested_types() + argument_permutations(tier)
+    return name_reuse(("v", "x0") if tier == 'quick' else ("v", "x0", "a0", "x")) + generated_names() + cut_shapes() + live_variables() + fresh_clash() + lift_order() + [p for p in positions_and_codata() if not p['name'].startswith('codata-eff')] + clause_orders_and_nested_types() + argument_permutations(tier) + scrutinee_reuse() + nested_labels() + covariable_arguments()
